@@ -94,6 +94,8 @@ def run(ctx):
         F = ctx.extract.cfacts(cfg)
         ctx.analysed["c_functions_" + cfg] = len(F.fn_list)
         rules_c(ctx, F)
+    import rsrules
+    rsrules.c01_rust(ctx)
     return ctx.finish(
         "Static gate/pairing rules over Clang CFGs of lib/src (unity TU, build.rs flags): decides that every path on which an old "
         "subtree or cached token is accepted for reuse passes all listed checks with the required outcome. Does not decide tree equality.")
